@@ -28,7 +28,11 @@ PARTS = [
     M('\\quad h', ('s', ' '), ('e', 'h')), M('i \\label{l}', ('e', 'i')), M('j; \\nonumber', ('e', 'j'), ('p', ';')),
     M('=', ('o', '=')), ('text', '\\text{ %s }', ' %s '), ('text', '\\mbox{%s}', '%s'), M('k\\;', ('e', 'k'), ('s', ' ')),
     M('\\frac{x}{y}_1^{2}', ('e', 'x')), M('/ m:', ('o', '/'), ('e', 'm'), ('p', ':')), M('+', ('o', '+')),
+    M('n,\\quad\\quad', ('e', 'n'), ('p', ','), ('s', ' '), ('s', ' ')), M('o.\\ \\ \\label{x}', ('e', 'o'), ('p', '.'), ('s', ' '), ('s', ' ')),
+    M('\\ge p', ('o', '\\ge'), ('e', 'p')),
 ]
+# a document may redefine an operator macro (common preamble line); the scheme must not change
+PREAMBLES = ['', '\\renewcommand{\\le}{\\leqslant}\\renewcommand{\\ge}{\\geqslant}\n']
 FRAMES = [('\\begin{align}', '\\end{align}'), ('\\begin{equation}', '\\end{equation}'), ('\\[', '\\]'), ('$$', '$$'),
           ('\\begin{eqnarray*}', '\\end{eqnarray*}'), ('\\begin{alignat}{2}', '\\end{alignat}'), ('\\begin{equation*}', '\\end{equation*}'),
           ('\\begin{align*}', '\\end{align*}'), ('\\begin{gather}', '\\end{gather}'), ('\\begin{displaymath}', '\\end{displaymath}'),
@@ -162,8 +166,9 @@ class Builder:
 
 
 def build(case):
-    rows, fi, lang, simple, rs = case
+    rows, fi, lang, simple, rs = case[:5]
     b = Builder()
+    b.s = PREAMBLES[case[5] if len(case) > 5 else 0]
     b.word()
     b.s += ' '
     i1 = b.equation(rows, fi, rs)
@@ -201,6 +206,7 @@ class C11:
         for s1 in sa:
             yield [[[s1]], 0, 'de', True, 0]
             yield [[[s1]], 2, 'ru', False, 0]
+            yield [[[[0], s1]], 0, 'en', False, 0, 1]
         combos = (('en', False), ('de', True), ('ru', False)) if tier == 'quick' else (('en', False), ('de', True), ('ru', False), ('en', True), ('de', False))
         for s1 in ss:
             for s2 in ss:
@@ -214,7 +220,7 @@ class C11:
             yield [[[[a]], [[b]], [[c]]], 5, 'ru', False, 0]
 
     def judge(self, case):
-        rows, fi, lang, simple, rs = case
+        rows, fi, lang, simple, rs = case[:5]
         b, i1, i2 = build(case)
         src = b.s
         o = impl.run_filter(src, {'pack': '*', 'lang': lang, 'seqs': simple})
@@ -249,6 +255,8 @@ class C11:
         else:
             # positions: words exact, everything else inside its equation
             for w, off in b.words.items():
+                if simple and any(a <= off < e for a, e in b.eqs):
+                    continue        # with simple replacements the whole equation is one placeholder
                 i = plain.find(w)
                 if i < 0 or nums[i:i + 4] != list(range(off + 1, off + 5)):
                     viol.append({'clause': '\\text / \\mbox arguments are copied with exact positions', 'sig': 'C11:textpos:' + tag,
@@ -269,7 +277,7 @@ class C11:
                                  'detail': dict(det, index=i, char=ch, position=nums[i], span=[a + 1, e])})
                     break
             # no maths source
-            if re.search(r'[\\_^{}&$]|\b[a-mx-y]\b', plain):
+            if re.search(r'[\\_^{}&$]|\b[a-px-y]\b', plain):
                 viol.append({'clause': 'no maths source appears', 'sig': 'C11:leak:' + tag, 'detail': det})
         nparts = sum(len(sec) for row in rows for sec in row)
         nt = nparts > 1 or any(PARTS[p][0] == 'text' or len(PARTS[p][2]) > 1 for row in rows for sec in row for p in sec)
